@@ -147,7 +147,7 @@ def nontrivial_cut(tr):
 
 # ---------------------------------------------------------------- the check
 
-LINE_CFG = dict(Alphabet=set(), NL=10, MaxItems=0, MaxLen=0, MaxChunk=0, KeepHist=False)
+LINE_CFG = dict(Alphabet=set(), NL=10, MaxItems=0, MaxLen=0, MaxChunk=0, KeepHist=False, Deviation='none')
 
 
 def do_replay(path):
@@ -166,7 +166,7 @@ def do_replay(path):
         new = lp_trace([bytes(i) for i in tr['items']], tr['cutoff'], sizes, int(p), order)
         v, _ = C.validate_traces('LengthPrefixTrace', [new], cfg_text=C.cfg(
             spec='TraceSpec', constants=dict(Bytes=set(), P=int(p), Order=order, MaxItems=0,
-                                             MaxLen=0, MaxChunk=0, KeepHist=False)))
+                                             MaxLen=0, MaxChunk=0, KeepHist=False, Deviation='none')))
     print('replay verdict:', v[0])
     print('items:', tr['items'], 'cuts:', sizes)
     print('real outputs per chunk:', new['outs'], 'at completion:', new['final'], new['ended'])
@@ -185,6 +185,7 @@ def main(tier, replay):
     thorough = tier == 'thorough'
     mc_stats = []
     samples = []
+    deviations_refuted = []
 
     # 1. exhaustive model checking -------------------------------------------------
     jobs = []
@@ -192,12 +193,12 @@ def main(tier, replay):
     shapes = [(3, 2, 3)] if not thorough else [(3, 2, 4), (2, 3, 4)]     # (MaxItems, MaxLen, MaxChunk)
     for (mi, ml, mc_) in shapes:
         jobs.append(('LineFraming', dict(Alphabet={97, 98}, NL=10, MaxItems=mi, MaxLen=ml, MaxChunk=mc_,
-                                         KeepHist=False), lf_inv))
+                                         KeepHist=False, Deviation='none'), lf_inv))
     lp_cfgs = [(1, 'little'), (2, 'big')] + ([(2, 'little'), (1, 'big')] if thorough else [])
     for (p, order) in lp_cfgs:
         for (mi, ml, mc_) in shapes:
             jobs.append(('LengthPrefix', dict(Bytes={0, 1, 2}, P=p, Order=order, MaxItems=mi, MaxLen=ml,
-                                              MaxChunk=mc_, KeepHist=False), ['Confluence', 'RoundTrip']))
+                                              MaxChunk=mc_, KeepHist=False, Deviation='none'), ['Confluence', 'RoundTrip']))
     rs = C.par([lambda m=m, c=c, i=i: C.run_tlc(m, C.cfg(constants=c, invariants=i),
                                                   coverage=True, workers=4)
                 for (m, c, i) in jobs])
@@ -205,6 +206,18 @@ def main(tier, replay):
         if r.violated:
             raise C.MachineryError('%s model violates %s:\n%s' % (m, r.violated, r.error_trace))
         mc_stats.append((m, c, r))
+    # non-vacuity: slips re-introduced in the models must be refuted by the same invariants
+    devs = [('LineFraming', dict(Alphabet={97, 98}, NL=10, MaxItems=2, MaxLen=2, MaxChunk=2, KeepHist=False,
+                                 Deviation='no-flush'), ['RoundTrip']),
+            ('LineFraming', dict(Alphabet={97, 98}, NL=10, MaxItems=2, MaxLen=2, MaxChunk=2, KeepHist=False,
+                                 Deviation='drop-acc'), ['Confluence']),
+            ('LengthPrefix', dict(Bytes={0, 1, 2}, P=1, Order='little', MaxItems=2, MaxLen=2, MaxChunk=2,
+                                  KeepHist=False, Deviation='gt-size'), ['RoundTrip'])]
+    for (m, c, i), r in zip(devs, C.par([lambda m=m, c=c, i=i: C.run_tlc(m, C.cfg(constants=c, invariants=i),
+                                                                        workers=2) for (m, c, i) in devs])):
+        if r.violated not in i:
+            raise C.MachineryError('%s: deviation %s is not refuted (vacuous invariant)' % (m, c['Deviation']))
+        deviations_refuted.append({'module': m, 'deviation': c['Deviation'], 'violated': r.violated})
     V.phase('model checking')
 
     # 2. behaviours generated by TLC ----------------------------------------------
@@ -212,16 +225,16 @@ def main(tier, replay):
     cap = 2500 if thorough else 300     # exhaustive behaviours replayed per configuration
     gens = []
     gens.append(('line', 'LineFraming', dict(Alphabet={97, 98}, NL=10, MaxItems=2, MaxLen=1,
-                                             MaxChunk=2, KeepHist=True), None))
+                                             MaxChunk=2, KeepHist=True, Deviation='none'), None))
     gens.append(('line', 'LineFraming', dict(Alphabet={97, 98, 34}, NL=10, MaxItems=3, MaxLen=2,
-                                             MaxChunk=6, KeepHist=True), nsim))
+                                             MaxChunk=6, KeepHist=True, Deviation='none'), nsim))
     for (p, order) in [(1, 'little'), (2, 'big'), (1, 'big'), (2, 'little')]:
         gens.append(((p, order), 'LengthPrefix', dict(Bytes={0, 1, 2}, P=p, Order=order,
                                                       MaxItems=2, MaxLen=1, MaxChunk=2,
-                                                      KeepHist=True), None))
+                                                      KeepHist=True, Deviation='none'), None))
         gens.append(((p, order), 'LengthPrefix', dict(Bytes={0, 1, 255}, P=p, Order=order,
                                                       MaxItems=3, MaxLen=2, MaxChunk=6,
-                                                      KeepHist=True), nsim // 3))
+                                                      KeepHist=True, Deviation='none'), nsim // 3))
 
     def gen(job):
         key, mod, const, sim = job
@@ -336,7 +349,7 @@ def main(tier, replay):
             'LengthPrefixTrace', traces,
             cfg_text=C.cfg(spec='TraceSpec', constants=dict(
                 Bytes=set(), P=p, Order=order, MaxItems=0, MaxLen=0, MaxChunk=0,
-                KeepHist=False)))
+                KeepHist=False, Deviation='none')))
         for k in tstats:
             tstats[k] += st[k]
         judge('length_prefix', traces, verdicts, 'P=%d,%s' % (p, order))
@@ -358,6 +371,7 @@ def main(tier, replay):
         'model_checking_runs': [{'module': m, 'constants': {k: str(v) for k, v in c.items()},
                                  **r.summary()} for (m, c, r) in mc_stats],
         'tlc_behaviours_replayed': n_replayed,
+        'model_deviations_refuted': deviations_refuted,
         'behaviour_generation': gen_counts,
         'random_executions': 2 * nrand,
         'distinct_nontrivial': len(nontrivial),
